@@ -9,7 +9,7 @@ import sys
 import time
 
 from .. import common
-from ..common import clist, cnat, cbool
+from ..common import clist, cnat, cbool, ctext
 from .. import transport_sim as T
 
 FINISH = dict(level='proof', rule='(transport in {pty, fd, socket}, initial kernel buffer/open/alive, schedule of peer actions (write/exit/hang-up) placed before every system call of '
@@ -197,21 +197,91 @@ def placed_race(ctx, pexpect, use_poll):
                 % ('poll' if use_poll else 'select', got), {'schedule': 'timed wait expires -> child writes -> child exits -> liveness check', 'use_poll': use_poll})
 
 
+def popen_cases(ctx, pexpect, n):
+    """job popen-sim: the REAL PopenSpawn.read_nonblocking with its queue and clock scripted, against Transport/Popen.v; job
+    popen-thread: the REAL _read_incoming on scripted os.read results; plus the property itself on every case"""
+    from .. import popen_sim as P
+    from ..transport_sim import coq_kern
+    rng = ctx.rng
+    cases, tcases = [], []
+    hits = 0
+    for _ in range(n):
+        kern = (bytes(rng.choice(b'ab') for _ in range(rng.choice([0, 0, 2, 6]))), True, True)
+        if rng.random() < 0.08:
+            kern = (kern[0], False, False)
+        ops = P.gen_ops(rng)
+        try:
+            obs = P.run_ops(pexpect, kern, ops)
+        except Exception as e:
+            if hits < 3:
+                hits += 1
+                ctx.hit('C06/raises', 'PopenSpawn.read_nonblocking raised %r' % (e,), {'kern': repr(kern), 'ops': repr(ops)})
+            continue
+        # the property, directly: returned bytes, then carry-over buffer, queue and pipe = everything written, in order
+        written = kern[0]
+        w_open, w_alive = kern[1], kern[2]
+        got = b''
+
+        def wr(acts):
+            nonlocal written, w_open, w_alive
+            for a in acts:
+                if a[0] == 'w' and w_open and w_alive:
+                    written += a[1]
+                elif a[0] == 'exit':
+                    w_open = w_alive = False
+                elif a[0] == 'hangup':
+                    w_open = False
+        for o, ob in zip(ops, obs):
+            if o[0] == 'env':
+                wr(o[1])
+                st = ob[0]
+            else:
+                used = len(o[2]) - ob[3]
+                for acts, _ in o[2][:used]:
+                    wr(acts)
+                st = ob[2]
+                if ob[1][0] == 0:
+                    got += ob[1][1]
+                    if len(ob[1][1]) > o[1] and hits < 3:
+                        hits += 1
+                        ctx.hit('C06/sim-popen-size', 'read_nonblocking(%d) returned %d bytes' % (o[1], len(ob[1][1])), {'kern': repr(kern), 'ops': repr(ops)})
+                elif ob[1][0] == 1:
+                    pend = st[2] + b''.join(x[0] for x in st[1] if x) + st[0][0]
+                    if (pend or st[0][1]) and hits < 3:
+                        hits += 1
+                        ctx.hit('C06/sim-popen-eof', 'EOF raised while %r was still undelivered (pipe open: %s)' % (pend, st[0][1]), {'kern': repr(kern), 'ops': repr(ops)})
+            pend = st[2] + b''.join(x[0] for x in st[1] if x) + st[0][0]
+            if got + pend != written and hits < 3:
+                hits += 1
+                ctx.hit('C06/sim-popen-conserve', 'PopenSpawn: returned %r + undelivered %r != written %r' % (got, pend, written), {'kern': repr(kern), 'ops': repr(ops)})
+                break
+        cases.append(('(%s, %s)' % (coq_kern(*kern), P.coq_ops(ops)), obs, {'kern': repr(kern), 'ops': repr(ops)}))
+    for _ in range(max(200, n // 10)):
+        reads = [rng.choice([bytes(rng.choice(b'ab') for _ in range(rng.randint(1, 4)))] * 6 + [b'', None]) for _ in range(rng.randint(0, 6))]
+        q, left = P.thread_run(pexpect, reads)
+        tcases.append((clist([('None' if r is None else '(Some %s)' % ctext(r)) for r in reads]), [([] if x is None else [x]) for x in q], {'reads': repr(reads)}))
+    ctx.run_cases('popen-sim', ['Transport.Model', 'Transport.Popen', 'Transport.Run'], 'run_popen', 'kern * list pop_', cases, shard=400)
+    ctx.run_cases('popen-thread', ['Transport.Model', 'Transport.Popen', 'Transport.Run'], 'run_thread', 'list (option (list N))', tcases, shard=400)
+
+
 def run(ctx):
     pexpect = common.preflight()
     thorough = ctx.tier == 'thorough'
     ctx.trusted += ['Coq 8.16.1 kernel (coqc); vm_compute evaluates model cases; no native_compute',
                     'hand-written models Transport/Model.v of the pty / fd / socket read_nonblocking over a MODEL of the kernel endpoint (byte FIFO, open flag, alive flag; peer actions interleaved before every system call), '
                     'tied to the code by job read-sim: the real functions run with select/poll, os.read, isalive, recv answered by a Python copy of that kernel model',
+                    'Transport/Popen.v: PopenSpawn.read_nonblocking + _read_incoming (thread steps atomic: one os.read + put), tied to the code by jobs popen-sim (queue and clock scripted) and popen-thread',
                     'the kernel model itself (what Linux ptys/pipes/sockets do) is an assumption, exercised by real children with up to several hundred KB and by a placed race on a real pty']
     ctx.assumptions += ['a dead or disconnected peer writes nothing more (grandchildren holding the slave side open are out of scope)',
-                        'PopenSpawn (reader thread + queue) is covered by the real-kernel oracle only, not by a theorem']
+                        'PopenSpawn: the reader thread is modelled as atomic steps (one os.read + put) interleaved with the reader loop; real thread scheduling is exercised by the real-kernel oracle']
     ok = ctx.build('Props/C06.v', extra=['Transport/Run.v'])
     cases = sim_cases(ctx, pexpect, 30000 if thorough else 4000)
     if os.path.exists(os.path.join(common.COQ, 'Transport/Run.vo')):
         ctx.run_cases('read-sim', ['Transport.Model', 'Transport.Run'], 'run_transport', 'nat * kern * sched * list (nat * bool)', cases, shard=400)
     else:
         ctx.corr_broken.append(('read-sim', {'error': 'model did not build'}))
+    if os.path.exists(os.path.join(common.COQ, 'Transport/Run.vo')):
+        popen_cases(ctx, pexpect, 12000 if thorough else 2500)
     sizes = [0, 1, 5, 4095, 4096, 70000, 300000] if thorough else [0, 3, 4097, 150000]
     maxreads = [1, 7, 2000, 65536] if thorough else [2000, 7]
     sizes_small = [s for s in sizes if s < 5000]
